@@ -74,6 +74,15 @@ def expected (W : World N V T) (s : Sig N V T) (args : List V) (kw : List (N × 
     | some a, some k => (pyBindCore s a k).map .body
     | _, _ => some .perr
 
+/-- what the caller of the function gets once the body has run with binding `b`: the body's result converted to the
+return annotation, or a ParseError when it does not convert; errors before the body stay what they are -/
+def result (W : World N V T) (ret : Option T) (body : Binding N V → V) : Outcome N V → Ret N V
+  | .body b => match convO W ret (body b) with
+    | some v => .returned b v
+    | none => .resultErr b
+  | .perr => .perr
+  | .tyerr => .tyerr
+
 /-- the undecorated generator with its tail hand-overs followed: the generator it yields takes over and is started
 with `next()`; whatever was sent to the old one was consumed by the old one -/
 def flat {σ : Type} (raw : σ → Option V → RawStep σ V) : Nat → σ → Option V → Step σ V
